@@ -23,6 +23,9 @@ type Schema struct {
 	Values   *Schema   // map
 	Size     int       // fixed
 	Branches []*Schema // union
+	// Hint is not part of the schema (never serialised): it tells the datum
+	// generator what kind of content a string should carry ("time").
+	Hint string
 }
 
 // Field is one field of a record schema.
